@@ -73,8 +73,17 @@ type pstate struct {
 	events []Event
 	conds  []Cond
 	blocks []int
-	onPath map[int]bool
+	onPath map[*ssa.BasicBlock]bool
 	curBlk int
+	stack  []frame // inlined calls in progress (innermost last)
+}
+
+// frame: where to continue in the caller when an inlined callee returns.
+type frame struct {
+	fn   *ssa.Function // the callee being inlined
+	blk  *ssa.BasicBlock
+	idx  int // index in blk.Instrs of the instruction after the call
+	call *ssa.Call
 }
 
 func (s *pstate) clone() *pstate {
@@ -90,7 +99,7 @@ func (s *pstate) clone() *pstate {
 		ver:    make(map[string]int, len(s.ver)),
 		seq:    s.seq,
 		curBlk: s.curBlk,
-		onPath: make(map[int]bool, len(s.onPath)),
+		onPath: make(map[*ssa.BasicBlock]bool, len(s.onPath)),
 	}
 	for k, v := range s.ver {
 		n.ver[k] = v
@@ -126,6 +135,7 @@ func (s *pstate) clone() *pstate {
 	n.events = append([]Event(nil), s.events...)
 	n.conds = append([]Cond(nil), s.conds...)
 	n.blocks = append([]int(nil), s.blocks...)
+	n.stack = append([]frame(nil), s.stack...)
 	return n
 }
 
@@ -138,6 +148,7 @@ type Explorer struct {
 	backEdge map[[2]int]bool
 	unkID    int64
 	Err      error
+	NoInline bool
 	// Bind lets a client pre-bind parameters to terms.
 	Bind map[*ssa.Parameter]*T
 }
@@ -169,7 +180,7 @@ func (e *Explorer) Run() ([]*Path, error) {
 	{
 		st := 0
 		s := &pstate{regs: map[ssa.Value]*T{}, allocs: map[*ssa.Alloc]*allocState{}, heap: map[string]*T{}, heapLV: map[string]*T{},
-			sets: map[string]uint64{}, setT: map[string]*T{}, atoms: map[string]bool{}, onPath: map[int]bool{}, ver: map[string]int{}}
+			sets: map[string]uint64{}, setT: map[string]*T{}, atoms: map[string]bool{}, onPath: map[*ssa.BasicBlock]bool{}, ver: map[string]int{}}
 		e.runBlock(e.Fn.Blocks[st], -1, s, st)
 		if e.Err != nil {
 			return e.paths, e.Err
@@ -216,13 +227,22 @@ func (e *Explorer) val(s *pstate, v ssa.Value) *T {
 	case *ssa.Builtin:
 		return &T{Op: "builtin", S: v.Name()}
 	case *ssa.Alloc:
-		return &T{Op: "alloc", S: v.Comment, C: int64(allocID(v)), Ty: v.Type()}
+		return &T{Op: "alloc", S: e.allocName(v), C: int64(allocID(v)), Ty: v.Type()}
 	case *ssa.FieldAddr, *ssa.IndexAddr:
 		// an address used as a value (passed to a call, stored): name the storage
 		return &T{Op: "addr", A: []*T{e.lvalue(s, v)}, Ty: v.Type()}
 	}
 	// value defined in a block not on this fragment (e.g. before a loop header)
 	return &T{Op: "outer", S: v.Name(), Ty: v.Type()}
+}
+
+// allocName qualifies the storage of an inlined callee with the callee's name,
+// so that it cannot be confused with the caller's storage of the same ordinal.
+func (e *Explorer) allocName(a *ssa.Alloc) string {
+	if a.Parent() != e.Fn {
+		return a.Parent().Name() + "." + a.Comment
+	}
+	return a.Comment
 }
 
 func allocID(a *ssa.Alloc) int {
@@ -561,15 +581,52 @@ func lvTouches(lv *T, mods map[string]bool) bool {
 	return hit
 }
 
+// rootBlk: the block of the function being explored to which an instruction
+// of block b is attributed (the call site's block while a callee is inlined).
+func (s *pstate) rootBlk(b *ssa.BasicBlock) int {
+	if len(s.stack) > 0 {
+		return s.stack[0].blk.Index
+	}
+	return b.Index
+}
+
 func (e *Explorer) runBlock(b *ssa.BasicBlock, pred int, s *pstate, start int) {
+	e.runFrom(b, pred, 0, s, start)
+}
+
+// shouldInline: the callee is a loop-free, non-recursive helper of the
+// analysed packages that no rule treats as an anchor: its body is explored in
+// the caller's state instead of being summarised as an opaque call.
+func (e *Explorer) shouldInline(s *pstate, callee *ssa.Function) bool {
+	if e.NoInline || callee == e.Fn || !e.W.inlinable(callee) {
+		return false
+	}
+	for _, f := range s.stack {
+		if f.fn == callee {
+			return false
+		}
+	}
+	if len(s.stack) >= 16 {
+		e.Err = fmt.Errorf("inlining depth exceeded in %s at %s", e.Fn.Name(), callee.Name())
+		return false
+	}
+	return true
+}
+
+func (e *Explorer) runFrom(b *ssa.BasicBlock, pred int, from int, s *pstate, start int) {
 	if e.Err != nil {
 		return
 	}
-	s.blocks = append(s.blocks, b.Index)
-	s.onPath[b.Index] = true
+	rb := s.rootBlk(b)
+	if from == 0 {
+		if len(s.stack) == 0 {
+			s.blocks = append(s.blocks, b.Index)
+		}
+		s.onPath[b] = true
+	}
 	isHeaderStart := pred == -2
-	for _, in := range b.Instrs {
-		switch in := in.(type) {
+	for ii := from; ii < len(b.Instrs); ii++ {
+		switch in := b.Instrs[ii].(type) {
 		case *ssa.Phi:
 			if isHeaderStart {
 				s.regs[in] = &T{Op: "loopvar", S: in.Comment, C: int64(b.Index), Ty: in.Type()}
@@ -593,7 +650,7 @@ func (e *Explorer) runBlock(b *ssa.BasicBlock, pred int, s *pstate, start int) {
 				if a, _ := e.allocOf(s, in.X); a == nil || a.Heap {
 					if r := s.regs[in]; r.E != 0 && untracked(r) && (r.Op == "sel" || r.Op == "elem") {
 						s.seq++
-						s.events = append(s.events, Event{Kind: "load", Instr: in, Pos: in.Pos(), LV: r, Block: b.Index, Epoch: s.seq})
+						s.events = append(s.events, Event{Kind: "load", Instr: in, Pos: in.Pos(), LV: r, Block: rb, Epoch: s.seq})
 					}
 				}
 			case token.NOT:
@@ -610,17 +667,17 @@ func (e *Explorer) runBlock(b *ssa.BasicBlock, pred int, s *pstate, start int) {
 				s.seq++
 				r := &T{Op: "recv", A: []*T{ch}, E: s.seq, Ty: in.Type()}
 				s.regs[in] = r
-				s.events = append(s.events, Event{Kind: "recv", Instr: in, Pos: in.Pos(), Args: []*T{ch}, Res: r, Block: b.Index})
+				s.events = append(s.events, Event{Kind: "recv", Instr: in, Pos: in.Pos(), Args: []*T{ch}, Res: r, Block: rb})
 			default:
 				s.regs[in] = &T{Op: "un:" + in.Op.String(), A: []*T{e.val(s, in.X)}, Ty: in.Type()}
 			}
 		case *ssa.BinOp:
 			s.regs[in] = mkbin(in.Op.String(), e.val(s, in.X), e.val(s, in.Y), in.Type())
 		case *ssa.Store:
-			e.store(s, in, b.Index)
+			e.store(s, in, rb)
 		case *ssa.Alloc:
 			if in.Heap {
-				s.regs[in] = &T{Op: "new", S: in.Comment, C: int64(allocID(in)), Ty: in.Type()}
+				s.regs[in] = &T{Op: "new", S: e.allocName(in), C: int64(allocID(in)), Ty: in.Type()}
 			} else {
 				delete(s.allocs, in)
 			}
@@ -632,7 +689,7 @@ func (e *Explorer) runBlock(b *ssa.BasicBlock, pred int, s *pstate, start int) {
 			} else {
 				base = e.val(s, in.X)
 			}
-			s.events = append(s.events, Event{Kind: "index", Instr: in, Pos: in.Pos(), Args: []*T{base, e.val(s, in.Index)}, Block: b.Index})
+			s.events = append(s.events, Event{Kind: "index", Instr: in, Pos: in.Pos(), Args: []*T{base, e.val(s, in.Index)}, Block: rb})
 		case *ssa.FieldAddr:
 			// addresses are resolved at their use
 		case *ssa.Field:
@@ -640,14 +697,14 @@ func (e *Explorer) runBlock(b *ssa.BasicBlock, pred int, s *pstate, start int) {
 			s.regs[in] = mksel(e.val(s, in.X), st.Field(in.Field).Name(), in.Type())
 		case *ssa.Index:
 			s.regs[in] = &T{Op: "elem", A: []*T{e.val(s, in.X), e.val(s, in.Index)}, Ty: in.Type()}
-			s.events = append(s.events, Event{Kind: "index", Instr: in, Pos: in.Pos(), Args: []*T{e.val(s, in.X), e.val(s, in.Index)}, Block: b.Index})
+			s.events = append(s.events, Event{Kind: "index", Instr: in, Pos: in.Pos(), Args: []*T{e.val(s, in.X), e.val(s, in.Index)}, Block: rb})
 		case *ssa.Lookup:
 			if _, isMap := in.X.Type().Underlying().(*types.Map); isMap {
 				s.regs[in] = &T{Op: "lookup", A: []*T{e.val(s, in.X), e.val(s, in.Index)}, E: 1 + s.verAll*1000 + s.ver["[]"], Ty: in.Type()}
 			} else {
 				// string indexing
 				s.regs[in] = &T{Op: "elem", A: []*T{e.val(s, in.X), e.val(s, in.Index)}, Ty: in.Type()}
-				s.events = append(s.events, Event{Kind: "index", Instr: in, Pos: in.Pos(), Args: []*T{e.val(s, in.X), e.val(s, in.Index)}, Block: b.Index})
+				s.events = append(s.events, Event{Kind: "index", Instr: in, Pos: in.Pos(), Args: []*T{e.val(s, in.X), e.val(s, in.Index)}, Block: rb})
 			}
 		case *ssa.Convert:
 			s.regs[in] = &T{Op: "conv", S: typeName(in.Type()), A: []*T{e.val(s, in.X)}, Ty: in.Type()}
@@ -678,9 +735,13 @@ func (e *Explorer) runBlock(b *ssa.BasicBlock, pred int, s *pstate, start int) {
 				}
 			}
 			s.regs[in] = &T{Op: "slice", A: args, Ty: in.Type()}
-			s.events = append(s.events, Event{Kind: "slice", Instr: in, Pos: in.Pos(), Args: args, Block: b.Index})
+			s.events = append(s.events, Event{Kind: "slice", Instr: in, Pos: in.Pos(), Args: args, Block: rb})
 		case *ssa.Extract:
-			s.regs[in] = &T{Op: "ext", C: int64(in.Index) + 1, A: []*T{e.val(s, in.Tuple)}, Ty: in.Type()}
+			if tup := e.val(s, in.Tuple); tup.Op == "tuple" && in.Index < len(tup.A) {
+				s.regs[in] = tup.A[in.Index]
+			} else {
+				s.regs[in] = &T{Op: "ext", C: int64(in.Index) + 1, A: []*T{tup}, Ty: in.Type()}
+			}
 		case *ssa.TypeAssert:
 			s.regs[in] = &T{Op: "assert", A: []*T{e.val(s, in.X)}, Ty: in.Type()}
 		case *ssa.Range:
@@ -689,20 +750,39 @@ func (e *Explorer) runBlock(b *ssa.BasicBlock, pred int, s *pstate, start int) {
 			s.seq++
 			s.regs[in] = &T{Op: "next", A: []*T{e.val(s, in.Iter)}, E: s.seq, Ty: in.Type()}
 		case *ssa.Call:
-			e.call(s, in, &in.Call, in, b.Index)
+			if callee := in.Call.StaticCallee(); callee != nil && e.shouldInline(s, callee) {
+				var args []*T
+				for _, a := range in.Call.Args {
+					args = append(args, e.val(s, a))
+				}
+				for i, p := range callee.Params {
+					if i < len(args) {
+						s.regs[p] = args[i]
+					}
+				}
+				s.seq++
+				s.events = append(s.events, Event{Kind: "inline", Instr: in, Pos: in.Pos(), Callee: callee, Args: args, Block: rb, Epoch: s.seq, Ver: s.verAll})
+				s.stack = append(s.stack, frame{fn: callee, blk: b, idx: ii + 1, call: in})
+				e.runFrom(callee.Blocks[0], -1, 0, s, start)
+				return
+			}
+			if e.Err != nil {
+				return
+			}
+			e.call(s, in, &in.Call, in, rb)
 			if cal := in.Call.StaticCallee(); cal != nil && cal.Pkg != nil && cal.Pkg.Pkg.Path() == "os" && cal.Name() == "Exit" {
 				e.finish(s, start, "exit", nil)
 				return
 			}
 		case *ssa.Go:
-			e.callEvent(s, "go", in, &in.Call, nil, b.Index)
+			e.callEvent(s, "go", in, &in.Call, nil, rb)
 		case *ssa.Defer:
-			e.callEvent(s, "defer", in, &in.Call, nil, b.Index)
+			e.callEvent(s, "defer", in, &in.Call, nil, rb)
 		case *ssa.Send:
 			ch := e.val(s, in.Chan)
-			s.events = append(s.events, Event{Kind: "send", Instr: in, Pos: in.Pos(), Args: []*T{ch}, Val: e.val(s, in.X), Block: b.Index, Epoch: s.seq, Ver: s.verAll})
+			s.events = append(s.events, Event{Kind: "send", Instr: in, Pos: in.Pos(), Args: []*T{ch}, Val: e.val(s, in.X), Block: rb, Epoch: s.seq, Ver: s.verAll})
 		case *ssa.MapUpdate:
-			s.events = append(s.events, Event{Kind: "mapupdate", Instr: in, Pos: in.Pos(), LV: e.val(s, in.Map), Args: []*T{e.val(s, in.Key)}, Val: e.val(s, in.Value), Block: b.Index})
+			s.events = append(s.events, Event{Kind: "mapupdate", Instr: in, Pos: in.Pos(), LV: e.val(s, in.Map), Args: []*T{e.val(s, in.Key)}, Val: e.val(s, in.Value), Block: rb})
 			s.ver["[]"]++
 		case *ssa.DebugRef, *ssa.RunDefers:
 		case *ssa.Return:
@@ -710,11 +790,32 @@ func (e *Explorer) runBlock(b *ssa.BasicBlock, pred int, s *pstate, start int) {
 			for _, r := range in.Results {
 				rets = append(rets, e.val(s, r))
 			}
-			s.events = append(s.events, Event{Kind: "ret", Instr: in, Pos: in.Pos(), Args: rets, Block: b.Index})
+			if n := len(s.stack); n > 0 {
+				// return of an inlined callee: continue in the caller
+				fr := s.stack[n-1]
+				s.stack = s.stack[:n-1]
+				for _, cb := range fr.fn.Blocks {
+					delete(s.onPath, cb)
+				}
+				var r *T
+				switch len(rets) {
+				case 0:
+					r = &T{Op: "none"}
+				case 1:
+					r = rets[0]
+				default:
+					r = &T{Op: "tuple", A: rets, Ty: fr.call.Type()}
+				}
+				s.regs[fr.call] = r
+				s.events = append(s.events, Event{Kind: "inlret", Instr: fr.call, Pos: fr.call.Pos(), Callee: fr.fn, Args: rets, Res: r, Block: s.rootBlk(fr.blk)})
+				e.runFrom(fr.blk, -3, fr.idx, s, start)
+				return
+			}
+			s.events = append(s.events, Event{Kind: "ret", Instr: in, Pos: in.Pos(), Args: rets, Block: rb})
 			e.finish(s, start, "ret", rets)
 			return
 		case *ssa.Panic:
-			s.events = append(s.events, Event{Kind: "panic", Instr: in, Pos: in.Pos(), Block: b.Index})
+			s.events = append(s.events, Event{Kind: "panic", Instr: in, Pos: in.Pos(), Block: rb})
 			e.finish(s, start, "panic", nil)
 			return
 		case *ssa.Jump:
@@ -733,7 +834,8 @@ func (e *Explorer) runBlock(b *ssa.BasicBlock, pred int, s *pstate, start int) {
 }
 
 func (e *Explorer) edge(from, to *ssa.BasicBlock, s *pstate, start int) {
-	if e.backEdge[[2]int{from.Index, to.Index}] || s.onPath[to.Index] {
+	inl := len(s.stack) > 0
+	if (!inl && e.backEdge[[2]int{from.Index, to.Index}]) || s.onPath[to] {
 		// record the values flowing into the header's phis
 		var args []*T
 		for _, in := range to.Instrs {
@@ -747,11 +849,11 @@ func (e *Explorer) edge(from, to *ssa.BasicBlock, s *pstate, start int) {
 				}
 			}
 		}
-		s.events = append(s.events, Event{Kind: "backedge", Args: args, Block: from.Index, Res: tconst(int64(to.Index), nil)})
+		s.events = append(s.events, Event{Kind: "backedge", Args: args, Block: s.rootBlk(from), Res: tconst(int64(to.Index), nil)})
 		e.finish(s, start, "backedge", nil)
 		return
 	}
-	if e.headers[to.Index] {
+	if !inl && e.headers[to.Index] {
 		// entering a loop from outside: the header's phis become opaque loop
 		// variables and every memory fact the loop may change is forgotten.
 		var args []*T
@@ -800,7 +902,7 @@ func (e *Explorer) branch(b *ssa.BasicBlock, in *ssa.If, s *pstate, start int) {
 		ns := s
 		// clone lazily only when both feasible: simple approach clones always
 		ns = s.clone()
-		ns.curBlk = b.Index
+		ns.curBlk = s.rootBlk(b)
 		if !e.assume(ns, c, pol, instrPos(in)) {
 			continue
 		}
